@@ -590,6 +590,7 @@ class Future:
 
     def __init__(self):
         self._done = False
+        self._running = False
         self._result = None
         self._exc = None
         self._waiters = []
@@ -597,6 +598,12 @@ class Future:
 
     def done(self):
         return self._done
+
+    def running(self):
+        return self._running and not self._done
+
+    def cancelled(self):
+        return False
 
     def set_result(self, r):
         self._result = r
@@ -666,6 +673,7 @@ class Executor:
                 if not self.queue:
                     return
                 fut, fn, a, k = self.queue.pop(0)
+                fut._running = True
             try:
                 r = fn(*a, **k)
             except (Abort, Deadlock):
